@@ -1,11 +1,14 @@
 import HapModel.Model.Cli
+import HapModel.Model.Seeded
 import HapModel.Model.PhenoSim
 /-!
 # C10 — A seed makes simgenotype and simphenotype reproducible   (PARTIAL)
 
 Model: the process has a global generator state; `Cli.afterGuard` is the seeding guard of `simulate_gt`
 (`if seed is not None: np.random.seed(seed)`); every random draw of C01–C03 is a function of the state left by the
-guard; simphenotype owns a private generator `default_rng(seed)`.  Hash order, glob order and library internals
+guard; simphenotype owns a private generator `default_rng(seed)`.  `Seeded` is the same statement for a run that uses the
+generator *adaptively* (which draws it makes depends on the values drawn before), tied to the commands by recording their
+requests to `np.random`.  Hash order, glob order and library internals
 are runtime behaviour the model cannot exhibit: they are covered by the experiment (fresh processes, different
 PYTHONHASHSEED, arbitrary prior use of the global generator).
 -/
@@ -31,5 +34,33 @@ theorem seed_zero_refuted_before_fix :
     ∃ (run : Nat → Nat) (g₁ g₂ : Nat),
       run (afterGuardOld (fun s => s + 100) (some 0) g₁) ≠ run (afterGuardOld (fun s => s + 100) (some 0) g₂) :=
   Cli.seed_zero_refuted_before_fix
+
+/-- **adaptive form**: whatever the body of the run does with the values it draws – how many draws, which, in what order
+    may all depend on earlier draws – a run that asks for `seed s` first (as `simulate_gt` does for every integer seed, 0
+    included) receives the same answers from every initial generator state, for every bound on its length -/
+theorem seeded_adaptive_run_independent_of_history {G Call Val} (gen : Seeded.Gen G Call Val) (body : Seeded.Prog Call Val)
+    (s : Nat) (fuel : Nat) (g₁ g₂ : G) :
+    Seeded.run gen (Seeded.guard (some s) body) fuel g₁ [] = Seeded.run gen (Seeded.guard (some s) body) fuel g₂ [] :=
+  Seeded.guarded_run_independent_of_history gen body s fuel g₁ g₂
+
+/-- … namely the answers the body receives from the state `seed s` -/
+theorem seeded_adaptive_run_is_body_from_seed {G Call Val} (gen : Seeded.Gen G Call Val) (body : Seeded.Prog Call Val)
+    (s : Nat) (fuel : Nat) (g : G) :
+    Seeded.run gen (Seeded.guard (some s) body) (fuel + 1) g [] = none :: Seeded.run gen body fuel (gen.seed s) [] :=
+  Seeded.guarded_run_eq gen body s fuel g
+
+/-- simphenotype asks nothing of the process-wide generator -/
+theorem simphenotype_leaves_global_generator_alone {G Call Val} (gen : Seeded.Gen G Call Val) (fuel : Nat) (g : G) :
+    Seeded.run gen (Seeded.silent : Seeded.Prog Call Val) fuel g [] = [] :=
+  Seeded.silent_run gen fuel g
+
+/-- F10 again in the adaptive form, with the repaired guard beside it (non-vacuity of the statement above: the two
+    histories do differ without the seeding) -/
+theorem seed_zero_adaptive_witness :
+    Seeded.run Seeded.counter (Seeded.guardOld (some 0) Seeded.oneDraw) 5 1 [] ≠
+      Seeded.run Seeded.counter (Seeded.guardOld (some 0) Seeded.oneDraw) 5 2 [] ∧
+    Seeded.run Seeded.counter (Seeded.guard (some 0) Seeded.oneDraw) 5 1 [] =
+      Seeded.run Seeded.counter (Seeded.guard (some 0) Seeded.oneDraw) 5 2 [] :=
+  ⟨Seeded.seed_zero_depends_on_history_before_fix, Seeded.seed_zero_independent_after_fix⟩
 
 end C10
